@@ -167,6 +167,7 @@ CEN_RULE = ('random graphs of all 8 kinds, 1..size nodes (plus a few with 21-36 
 
 PROPS.update({
     'C05': dict(
+        extra_modules=['GraphrsModel.Props.C05Full'],
         gens=[('cen', 'small', 1500, 25000, 8), ('cen', 'parallel', 20, 200, 36)],
         spec_fields=[r'bc0:q', r'bc1:q'], model_fields=[r'build', r'bc0:q', r'bc1:q'],
         nontrivial=cen_nontrivial, hist=cen_hist, rule=CEN_RULE,
@@ -260,6 +261,7 @@ PROPS.update({
             'termination is observed through a watchdog: 8 s per call'],
     ),
     'C17': dict(
+        extra_modules=['GraphrsModel.Props.C17Model'],
         thorough_scale=2,
         gens=[('louv', 'ties', 1200, 20000, 12), ('louv', 'random', 600, 10000, 9)],
         spec_fields=[], model_fields=[r'build'], impl_checks=[('same', '1')],
@@ -310,6 +312,7 @@ def gen_hist(req, I):
 
 PROPS.update({
     'C16': dict(
+        extra_modules=['GraphrsModel.Props.C16Store'],
         thorough_scale=1.5,
         gens=[('complete', '-', 120, 600, 14), ('karate', '-', 1, 1, 0), ('gnp', 'small', 1500, 25000, 40), ('gnp', 'large', 40, 400, 300),
               ('gnpstat', '-', 40, 300, 0)],
